@@ -1782,6 +1782,14 @@ def report(ctx, audit, t0):
         cov["source_surface"] = surf
     except Exception as e:
         cov["source_surface"] = {"error": repr(e)}
+    if ctx.pid == "C06":
+        try:
+            sk = statement_skeleton()
+            for d in sk["differ"]:
+                print("NOTE: statement order of an update body in /repo/src/lib.rs differs from theories/Stmt.v: %s (the correspondence run decides whether C06 is affected)" % d)
+            cov["statement_skeleton"] = sk
+        except Exception as e:
+            cov["statement_skeleton"] = {"error": repr(e)}
     assumptions = ["the correspondence check is differential testing: agreement is established on the inputs run",
                    "crypto cores (ECDSA equation, ed25519, SEC1 decoding) are oracles at run time and universally quantified in the theorems",
                    "unforgeability and collision resistance are not claimed"]
